@@ -16,12 +16,15 @@ import (
 //  final-view-mismatch   after quiescence the view differs from the current query result
 //  missing-forced-close / spurious-close
 //                        Next did not return the close error first after Restore / a published
-//                        closeSubscription event for the subscription's token
+//                        closeSubscription event for the subscription's token (a batch queued before a
+//                        Restore is dropped by the publisher and closes nothing)
 //  events-do-not-match-state-change
 //                        a committed batch, applied to the previous query results, does not give the new ones
 //  (+ protocol sanity: framing, request index, publish-one)
 //
-// Every failure carries a cause computed from the observations; "unknown" unless it is one of
+// Every failure carries a cause computed from the observations; "unknown" unless it is one of the
+// following (the first four were repaired in /repo — 2bf672d, 949dae4, 9502e45, f559b0f — and are
+// VIOLATIONs if they come back; query-index-behind-content is an open known finding)
 //  subscribe-in-commit-publish-gap  the offending delivery is an event whose index is not larger than the
 //                                   index of the snapshot the subscriber already applied (an event contained
 //                                   in the snapshot, published after the snapshot was taken, delivered after it)
@@ -269,6 +272,10 @@ func oracle(steps []Step, drained bool) []Failure {
 			if st.Did && len(queue) > 0 {
 				b := queue[0]
 				queue = queue[1:]
+				if b.epoch != epoch {
+					// a batch of a replaced store: publishBatch drops it (generation check), it closes nothing
+					continue
+				}
 				b.published, b.pubEpoch, b.pubStep = true, epoch, i
 				for _, t := range b.close {
 					for _, c := range clients {
